@@ -454,6 +454,25 @@ func genSession(t *rapid.T, service string, slot int) session {
 		if n > 4 {
 			n = 4
 		}
+		// clients also send what the protocol does not expect at that point: a DATA block
+		// without an open transfer (retransmission after the transfer ended, lost WRQ), a
+		// read request, an ACK
+		switch rapid.SampledFrom([]string{"upload", "upload", "upload", "stray-data", "stray-then-upload", "rrq", "ack"}).Draw(t, "tftp-kind") {
+		case "stray-data":
+			add("data", append([]byte{0, 3, 0, byte(rapid.IntRange(0, 3).Draw(t, "blk"))}, []byte(m)...))
+			return s
+		case "stray-then-upload":
+			add("data", append([]byte{0, 3, 0, 1}, []byte(m)...))
+			if n > 3 {
+				n = 3
+			}
+		case "rrq":
+			add("rrq", append([]byte{0, 1}, []byte(m+".bin\x00octet\x00")...))
+			return s
+		case "ack":
+			add("ack", []byte{0, 4, 0, 1})
+			return s
+		}
 		add("wrq", append([]byte{0, 2}, []byte(m+".bin\x00octet\x00")...))
 		for i := 1; i < n; i++ {
 			last := i == n-1
